@@ -29,6 +29,17 @@ def one(name):
         subprocess.run(["git", "-C", "/repo", "worktree", "add", "-q", "--detach", repo, os.environ.get("VERIF_SEED_BASE", "HEAD")], check=True)
         p = subprocess.run(["git", "apply", os.path.join(d, "patch.diff")], cwd=repo, capture_output=True, text=True)
         if p.returncode != 0:
+            # /repo has moved on (hook lines, fixes): try a 3-way application and, if that works, store the refreshed
+            # patch (the original is kept as patch.orig.diff)
+            p3 = subprocess.run(["git", "apply", "--3way", os.path.join(d, "patch.diff")], cwd=repo, capture_output=True, text=True)
+            if p3.returncode == 0 and b"<<<<<<<" not in subprocess.run(["git", "diff"], cwd=repo, capture_output=True).stdout:
+                subprocess.run(["git", "reset", "-q"], cwd=repo)
+                new = subprocess.run(["git", "diff"], cwd=repo, capture_output=True, text=True).stdout
+                if not os.path.exists(os.path.join(d, "patch.orig.diff")):
+                    os.rename(os.path.join(d, "patch.diff"), os.path.join(d, "patch.orig.diff"))
+                open(os.path.join(d, "patch.diff"), "w").write(new)
+                p = p3
+        if p.returncode != 0:
             res = {"applies": False, "detail": p.stderr[-300:]}
         else:
             t0 = time.time()
